@@ -57,6 +57,10 @@ type trUnit struct {
 	effectField string
 	effectOwner string
 	effectType  string
+	sends    map[string]string  // source text of a channel -> list field added to the receiver's struct that keeps what was sent on it
+	sendOwner string
+	bufVars  []string           // variables that are byte buffers: `v.WriteByte(b)` / `v.WriteString(s)` append to them
+	readers  []string           // variables that are byte readers: `b, err := v.ReadByte()` takes the next byte of what is left
 }
 
 type trEffect struct {
@@ -129,6 +133,15 @@ var trUnits = []trUnit{
 		effectField: "ops", effectOwner: "GroupSet", effectType: "GoFOp",
 		funcs: []string{"Query.HasOutfile", "GroupSet.writeQueryFile", "GroupSet.getOutfileFD", "GroupSet.resultWriteUnformattedHeader",
 			"GroupSet.resultWriteUnformatted", "GroupSet.WriteResult"}},
+	{ns: "Reader", pkgDir: "internal/io/fs", panics: true,
+		structs:  map[string][]string{"readFile": {"seekEOF", "warnedAboutLongLine"}},
+		enums:    []string{"readStatus"},
+		skip:     []string{"time.Sleep", "f.serverMessages"},
+		subst:    map[string]string{"io.EOF": "goEOF", "config.Server.MaxLineLength": "ext.maxLineLength"},
+		sends:    map[string]string{"rawLines": "rawLines"}, sendOwner: "readFile",
+		bufVars:  []string{"message"},
+		readers:  []string{"reader"},
+		funcs:    []string{"readFile.handleReadError", "readFile.handleReadByte", "readFile.read"}},
 	{ns: "Brush", pkgDir: "internal/color/brush", panics: true,
 		structs:     map[string][]string{},
 		appendCalls: map[string]int{"color.PaintWithAttr": 1},
@@ -255,8 +268,10 @@ func (p *trPkg) leanType(e ast.Expr) string {
 	switch t := e.(type) {
 	case *ast.Ident:
 		switch t.Name {
-		case "int", "int64", "uint64", "uint", "int32", "uint32", "uint8", "byte":
+		case "int", "int64", "uint64", "uint", "int32", "uint32":
 			return "Int"
+		case "uint8", "byte":
+			return "UInt8"
 		case "float64", "float32":
 			return "GoFloat"
 		case "string":
@@ -298,6 +313,10 @@ func (p *trPkg) leanType(e ast.Expr) string {
 			return "GoRe"
 		case "os.File":
 			return "GoString" // an open file is the path it was opened on
+		case "bufio.Reader":
+			return "GoString" // a reader is the bytes it has not delivered yet
+		case "context.Context":
+			return "Unit"
 		case "gossh.ConnMetadata":
 			return "GoConnMeta"
 		case "gossh.Permissions":
@@ -315,6 +334,8 @@ func (p *trPkg) leanType(e ast.Expr) string {
 		return "(List " + p.leanType(t.Elt) + ")"
 	case *ast.MapType:
 		return "(GoMap " + p.leanType(t.Key) + " " + p.leanType(t.Value) + ")"
+	case *ast.ChanType:
+		return "Unit" // what is sent on a channel is kept in the receiver (unit option `sends`)
 	case *ast.StructType:
 		if t.Fields == nil || len(t.Fields.List) == 0 {
 			return "Unit"
@@ -387,6 +408,16 @@ func (p *trPkg) emitStruct(sb *strings.Builder, name string) {
 	}
 	if p.unit.effectOwner == name {
 		fmt.Fprintf(sb, "  %s : List %s := []\n", p.unit.effectField, p.unit.effectType)
+	}
+	if p.unit.sendOwner == name {
+		var chans []string
+		for _, fld := range p.unit.sends {
+			chans = append(chans, fld)
+		}
+		sort.Strings(chans)
+		for _, fld := range chans {
+			fmt.Fprintf(sb, "  %s : List GoString := []\n", fld)
+		}
 	}
 	fmt.Fprintf(sb, "  deriving Repr, DecidableEq\n\n")
 	fmt.Fprintf(sb, "instance : GoZero %s := ⟨{}⟩\n\n", name)
@@ -825,6 +856,9 @@ func (f *trFn) stmt1(ind string, s ast.Stmt, next cont) string {
 		if c, ef := f.effectOf(call); ef != nil {
 			return f.effectBind(ind, c, ef, nil, false, next)
 		}
+		if id, what := f.bufWrite(call); id != nil {
+			return fmt.Sprintf("%slet %s := %s ++ %s\n", ind, f.v(id.Name), f.v(id.Name), what) + next(ind)
+		}
 		if r, ok := f.p.unit.record[src(call.Fun)]; ok {
 			var vals []string
 			for i, a := range call.Args {
@@ -908,9 +942,69 @@ func (f *trFn) stmt1(ind string, s ast.Stmt, next cont) string {
 		return f.rangeStmt(ind, st, next)
 	case *ast.ForStmt:
 		return f.forStmt(ind, st, next)
+	case *ast.SendStmt:
+		return f.sendStmt(ind, st, next)
+	case *ast.SelectStmt:
+		return f.selectStmt(ind, st, next)
 	}
 	trFail(s, "statement %T is not in the translated subset", s)
 	return ""
+}
+
+// sendStmt: `ch <- v` on a channel of the unit's `sends` table: the value joins the list the receiver keeps for the channel
+// (the consumer is assumed to take it); a send on a skipped channel is an effect outside the translated state
+func (f *trFn) sendStmt(ind string, st *ast.SendStmt, next cont) string {
+	ch := src(st.Chan)
+	if contains(f.p.unit.skip, ch) {
+		return next(ind)
+	}
+	fld, ok := f.p.unit.sends[ch]
+	if !ok || f.recv == "" || f.vtypes[f.recv] != f.p.unit.sendOwner {
+		trFail(st, "send on %s is not in the translated subset", ch)
+	}
+	g := f.v(f.recv)
+	return fmt.Sprintf("%slet %s := { %s with %s := %s.%s ++ [%s] }\n", ind, g, g, fld, g, fld, f.expr(st.Value)) + next(ind)
+}
+
+// selectStmt: the translation fixes the environment a theorem speaks about — the context is never cancelled, no timer or
+// signal channel is ready, and the consumer of a channel takes what is sent: a select with a `default` clause takes it; one
+// without takes its only send clause.  Anything else is outside the subset.
+func (f *trFn) selectStmt(ind string, st *ast.SelectStmt, next cont) string {
+	var def, send *ast.CommClause
+	sends := 0
+	for _, c := range st.Body.List {
+		cc := c.(*ast.CommClause)
+		switch comm := cc.Comm.(type) {
+		case nil:
+			def = cc
+		case *ast.SendStmt:
+			send = cc
+			sends++
+		case *ast.ExprStmt:
+			if u, ok := comm.X.(*ast.UnaryExpr); !ok || u.Op != token.ARROW {
+				trFail(cc, "select clause %s", src(comm))
+			}
+		default:
+			trFail(cc, "select clause of kind %T", comm)
+		}
+	}
+	chosen := def
+	var pre ast.Stmt
+	if chosen == nil {
+		if sends != 1 {
+			trFail(st, "select without default and with %d send clauses", sends)
+		}
+		chosen = send
+		pre = send.Comm
+	}
+	body := chosen.Body
+	if pre != nil {
+		body = append([]ast.Stmt{pre}, body...)
+	}
+	f.push()
+	out := f.stmts(ind, body, func(ind string) string { return f.outside(1, func() string { return next(ind) }) })
+	f.pop()
+	return out
 }
 
 // ptrTarget: the variable a pointer argument points to: `&v`, or a variable that is a pointer itself
@@ -925,6 +1019,50 @@ func ptrTarget(e ast.Expr) ast.Expr {
 }
 
 // randDraw: the receiver of `r.Intn(n)` (math/rand), or nil
+// byteRead: `r.ReadByte()` on one of the unit's reader variables
+func (f *trFn) byteRead(e ast.Expr) *ast.Ident {
+	call, ok := e.(*ast.CallExpr)
+	if !ok {
+		return nil
+	}
+	sel, ok := call.Fun.(*ast.SelectorExpr)
+	if !ok || sel.Sel.Name != "ReadByte" || len(call.Args) != 0 {
+		return nil
+	}
+	id, ok := sel.X.(*ast.Ident)
+	if !ok || !contains(f.p.unit.readers, id.Name) {
+		return nil
+	}
+	return id
+}
+
+// bufWrite: `v.WriteByte(b)` / `v.WriteString(s)` on one of the unit's buffer variables: the variable and what is appended
+func (f *trFn) bufWrite(call *ast.CallExpr) (*ast.Ident, string) {
+	sel, ok := call.Fun.(*ast.SelectorExpr)
+	if !ok || len(call.Args) != 1 {
+		return nil, ""
+	}
+	id, ok := sel.X.(*ast.Ident)
+	if !ok || !contains(f.p.unit.bufVars, id.Name) {
+		return nil, ""
+	}
+	switch sel.Sel.Name {
+	case "WriteByte":
+		return id, "[" + f.byteExpr(call.Args[0]) + "]"
+	case "WriteString":
+		return id, f.expr(call.Args[0])
+	}
+	return nil, ""
+}
+
+// byteExpr: an expression of type byte as a UInt8 term (a character literal or a variable holding a byte)
+func (f *trFn) byteExpr(e ast.Expr) string {
+	if lit, ok := e.(*ast.BasicLit); ok && lit.Kind == token.CHAR {
+		return "(" + eval(lit, nil).ExactString() + " : UInt8)"
+	}
+	return f.expr(e)
+}
+
 func randDraw(call *ast.CallExpr) *ast.Ident {
 	sel, ok := call.Fun.(*ast.SelectorExpr)
 	if !ok || sel.Sel.Name != "Intn" {
@@ -1020,6 +1158,13 @@ func (f *trFn) assign(ind string, st *ast.AssignStmt, k cont) string {
 	if len(st.Rhs) == 1 && (st.Tok == token.DEFINE || st.Tok == token.ASSIGN) {
 		if call, ef := f.effectOf(st.Rhs[0]); ef != nil {
 			return f.effectBind(ind, call, ef, st.Lhs, define, k)
+		}
+		// b, err := r.ReadByte(): a reader is the bytes it has not delivered yet; a read returns the next one and the rest
+		if r := f.byteRead(st.Rhs[0]); r != nil && len(st.Lhs) == 2 {
+			f.counter++
+			tb, te := fmt.Sprintf("_t%d", f.counter), fmt.Sprintf("_e%d", f.counter)
+			out := fmt.Sprintf("%slet (%s, %s, %s) := goReadByte %s\n", ind, tb, te, f.v(r.Name), f.v(r.Name))
+			return out + f.oneAssign(ind, st.Lhs[0], define, tb, func(ind string) string { return f.oneAssign(ind, st.Lhs[1], define, te, k) })
 		}
 	}
 	// comma-ok map read / call with several results
@@ -1652,9 +1797,19 @@ func (f *trFn) assignedOuter(body []ast.Stmt) []string {
 			}
 		case *ast.IncDecStmt:
 			mark(s.X)
+		case *ast.SendStmt:
+			if _, ok := f.p.unit.sends[src(s.Chan)]; ok && f.recv != "" {
+				set[f.recv] = true // what was sent is kept in the receiver
+			}
 		case *ast.CallExpr:
 			if _, ef := f.effectOf(s); ef != nil && f.recv != "" {
 				set[f.recv] = true // the history of operations lives in the receiver
+			}
+			if r := f.byteRead(s); r != nil {
+				mark(r)
+			}
+			if id, _ := f.bufWrite(s); id != nil {
+				mark(id)
 			}
 			if f.isTranslatedMethodCall(s) {
 				sel := s.Fun.(*ast.SelectorExpr)
@@ -1737,10 +1892,7 @@ func (f *trFn) whileStmt(ind string, st *ast.ForStmt, k cont) string {
 	if !f.panicky {
 		trFail(st, "a `for cond` loop in a function translated as total")
 	}
-	if st.Cond == nil {
-		trFail(st, "endless loops are not in the translated subset")
-	}
-	if len(f.guards(st.Cond)) > 0 {
+	if st.Cond != nil && len(f.guards(st.Cond)) > 0 {
 		trFail(st, "loop condition with an index expression")
 	}
 	state := f.assignedOuter(st.Body.List)
@@ -1749,7 +1901,11 @@ func (f *trFn) whileStmt(ind string, st *ast.ForStmt, k cont) string {
 	f.loops++
 	stateTuple := f.loopState()
 	out := fmt.Sprintf("%sgoWhile ext.fuel %s\n", ind, stateTuple)
-	out += fmt.Sprintf("%s  (fun %s => %s)\n", ind, stateTuple, f.expr(st.Cond))
+	condText := "true" // `for { … }`
+	if st.Cond != nil {
+		condText = f.expr(st.Cond)
+	}
+	out += fmt.Sprintf("%s  (fun %s => %s)\n", ind, stateTuple, condText)
 	out += fmt.Sprintf("%s  (fun %s =>\n", ind, stateTuple)
 	f.push()
 	out += f.stmts(ind+"    ", st.Body.List, func(ind string) string { return ind + "LoopStep.next " + f.loopState() + "\n" })
@@ -1758,9 +1914,33 @@ func (f *trFn) whileStmt(ind string, st *ast.ForStmt, k cont) string {
 	f.loop = saved
 	f.loops--
 	out += fmt.Sprintf("%s  (fun %s =>\n", ind, stateTuple)
-	out += strings.TrimRight(k(ind+"    "), "\n") + ")\n"
+	if st.Cond == nil && !hasBreak(st.Body) {
+		// nothing leaves an endless loop without `break` but a return: the code behind it is never reached
+		out += strings.TrimRight(f.panicLine(ind+"    ", "unreachable"), "\n") + ")\n"
+	} else {
+		out += strings.TrimRight(k(ind+"    "), "\n") + ")\n"
+	}
 	out += fmt.Sprintf("%s  %s\n", ind, f.wrapRet("(Outcome.panic \"out of fuel\")"))
 	return out
+}
+
+// hasBreak: a `break` that leaves this loop (not one of a nested loop, switch or select)
+func hasBreak(body *ast.BlockStmt) bool {
+	found := false
+	var walk func(n ast.Node) bool
+	walk = func(n ast.Node) bool {
+		switch v := n.(type) {
+		case *ast.ForStmt, *ast.RangeStmt, *ast.SwitchStmt, *ast.SelectStmt, *ast.FuncLit:
+			return false
+		case *ast.BranchStmt:
+			if v.Tok == token.BREAK {
+				found = true
+			}
+		}
+		return true
+	}
+	ast.Inspect(body, walk)
+	return found
 }
 
 func (f *trFn) forStmt(ind string, st *ast.ForStmt, k cont) string {
@@ -1961,7 +2141,7 @@ func (f *trFn) expr(e ast.Expr) string {
 	case *ast.IndexExpr:
 		return fmt.Sprintf("(GoIndex.idx %s %s)", f.expr(v.X), f.expr(v.Index))
 	case *ast.TypeAssertExpr:
-		if src(v) == "pool.BuilderBuffer.Get().(*strings.Builder)" {
+		if src(v) == "pool.BuilderBuffer.Get().(*strings.Builder)" || src(v) == "pool.BytesBuffer.Get().(*bytes.Buffer)" {
 			return "([] : GoString)" // a fresh (reset) builder from the pool
 		}
 	case *ast.CompositeLit:
@@ -2057,6 +2237,10 @@ func (f *trFn) expr(e ast.Expr) string {
 					if _, isVar := f.lookup(id.Name); isVar {
 						return "(Option.getD " + f.expr(sel.X) + " [])"
 					}
+				}
+			case "Len":
+				if id, ok := sel.X.(*ast.Ident); ok && len(v.Args) == 0 && contains(f.p.unit.bufVars, id.Name) {
+					return "(GoLen.len " + f.expr(sel.X) + ")"
 				}
 			case "Bytes", "String":
 				if len(v.Args) == 0 {
